@@ -565,7 +565,7 @@ def run(ctx):
                      "out-of-range axes, joins of unequal dimension, merge with itself). Every operation is classified valid/invalid from the "
                      "state before the call (numpy.transpose is the reference for axes): valid ones must be accepted, invalid ones refused "
                      "with the state unchanged. non-trivial = sequence with >=1 accepted operation on a network with >=1 bond")
-    ctx.lib(["TN/TNCheck", "TN/TNSem", "TN/TNConsistentConv", "TN/TNGenBase"])
+    ctx.lib(["TN/TNCheck", "TN/TNSem", "TN/TNMergeValue", "TN/TNConsistentConv", "TN/TNGenBase"])
     ctx.translate("GenTN", tn.generate)
     ctx.props()
     rng = ctx.rng
